@@ -667,11 +667,14 @@ func parseNumber(s []byte) (Object, error) {
 		return Integer(x), nil
 	}
 
-	y, err := strconv.ParseFloat(string(s), 64)
-	if err == strconv.ErrRange {
+	if realNumberRe.Match(s) {
+		// strconv.ParseFloat accepts more than PostScript allows (hexadecimal
+		// floats, underscores, "Inf", "NaN"), so the syntax is checked first.
+		y, err := strconv.ParseFloat(string(s), 64)
+		if err == nil && !math.IsInf(y, 0) && !math.IsNaN(y) {
+			return Real(y), nil
+		}
 		return nil, &postScriptError{eLimitcheck, fmt.Sprintf("number %q out of range", s)}
-	} else if err == nil && !math.IsInf(y, 0) && !math.IsNaN(y) {
-		return Real(y), nil
 	}
 
 	mm := radixNumberRe.FindSubmatch(s)
@@ -687,5 +690,7 @@ func parseNumber(s []byte) (Object, error) {
 
 	return nil, &postScriptError{eSyntaxerror, fmt.Sprintf("invalid number %q", s)}
 }
+
+var realNumberRe = regexp.MustCompile(`^[+-]?([0-9]+\.?[0-9]*|\.[0-9]+)([eE][+-]?[0-9]+)?$`)
 
 var radixNumberRe = regexp.MustCompile(`^([0-9]{1,2})#([0-9a-zA-Z]+)$`)
